@@ -16,6 +16,8 @@ RULE = ('Workloads (1-3 producer threads, each creating 1-2 recordings with 0-4 
         'storage call; schedules are PCT-style (priority permutation + change points), seeded random walks, and in the '
         'thorough tier an exhaustive DFS of all schedules with <= 2 preemptions for the smallest workloads; a timer '
         '(flush interval) may fire whenever another thread has stepped. close() is issued after joining the producers. '
+        'Optionally the producers are split over two asynchronous cassettes used one after the other in the same '
+        'process, over the same or over separate wrapped storages. '
         'Oracle: wrapped cassette content at the moment close() returns == a synchronous twin run of the workload; per '
         'recording the operations that reached the wrapped recording == the requested sequence (exactly once, in '
         'order); a failing operation removes only itself; nothing reaches the storage after close() returned; no '
@@ -60,7 +62,6 @@ class LogCassette(InMemoryTapeCassette):
         self.fail = set(fail)
         self.closed = False
         self.after_close = []
-        OWNERS.clear()
         OWNERS[id(self)] = self
 
     def storage_call(self, entry):
@@ -157,13 +158,28 @@ def run_producer(cas, p, recs, tolerate):
                 raise
 
 
+def sessions_of(workload):
+    """[(wrapped index, [producer indices])]: one async cassette per session, run one after the other in the same
+    process. 'second' (optional) = {'from': first producer of the second session, 'share': same wrapped storage?}."""
+    n = len(workload['producers'])
+    sec = workload.get('second')
+    if not sec or not 0 < sec['from'] < n:
+        return [(0, list(range(n)))]
+    return [(0, list(range(sec['from']))), (0 if sec.get('share') else 1, list(range(sec['from'], n)))]
+
+
 def twin_content(workload):
+    """Content per wrapped storage of a synchronous run."""
     LogCassette = _classes()
     DS.install(None)
-    cas = LogCassette(fail_set(workload))
-    for p, recs in enumerate(workload['producers']):
-        run_producer(cas, p, recs, tolerate=True)
-    return cas.content()
+    OWNERS.clear()
+    out = {}
+    for w, plist in sessions_of(workload):
+        if w not in out:
+            out[w] = LogCassette(fail_set(workload))
+        for p in plist:
+            run_producer(out[w], p, workload['producers'][p], tolerate=True)
+    return dict((w, c.content()) for w, c in out.items())
 
 
 def make_chooser(sched):
@@ -187,15 +203,21 @@ def run_schedule(ctx, case, chooser=None):
     A.Lock, A.Event, A.Thread = DS.CoLock, DS.CoEvent, DS.CoThread
     obs = {}
     try:
-        wrapped = LogCassette(fail_set(workload))
-        cas = A.AsyncRecordOnlyTapeCassette(wrapped, flush_interval=0.1)
+        OWNERS.clear()
+        sessions = sessions_of(workload)
+        wrappeds = {}
+        for w, _ in sessions:
+            if w not in wrappeds:
+                wrappeds[w] = LogCassette(fail_set(workload))
+        cassettes = [A.AsyncRecordOnlyTapeCassette(wrappeds[w], flush_interval=0.1) for w, _ in sessions]
         # the scheduler must own every primitive of the cassette; if the module stops using the names Lock / Event /
         # Thread the harness can no longer control it: that is a harness error, never a violation
-        for name, val in vars(cas).items():
-            mod = type(val).__module__
-            if mod in ('threading', '_thread') or type(val).__name__ in ('lock', 'RLock', '_RLock'):
-                from pbt.runner import HarnessError
-                raise HarnessError('cannot take control of AsyncRecordOnlyTapeCassette.%s (%r)' % (name, type(val)))
+        for cas in cassettes:
+            for name, val in vars(cas).items():
+                mod = type(val).__module__
+                if mod in ('threading', '_thread') or type(val).__name__ in ('lock', 'RLock', '_RLock'):
+                    from pbt.runner import HarnessError
+                    raise HarnessError('cannot take control of AsyncRecordOnlyTapeCassette.%s (%r)' % (name, type(val)))
 
         def invariant(s):
             for st_ in s.ts.values():
@@ -208,18 +230,21 @@ def run_schedule(ctx, case, chooser=None):
         sched.invariant = invariant
 
         def main():
-            cas.start()
-            producers = []
-            for p, recs in enumerate(workload['producers']):
-                t = DS.CoThread(target=run_producer, args=(cas, p, recs, False))
-                t.start()
-                producers.append(t)
-            for t in producers:
-                t.join()
-            cas.close()
-            obs['at_close'] = wrapped.content()
-            obs['log_at_close'] = len(wrapped.log)
-            obs['wrapped_closed'] = wrapped.closed
+            for i, (w, plist) in enumerate(sessions):
+                cas, wrapped = cassettes[i], wrappeds[w]
+                wrapped.closed = False    # a shared storage is opened again by the next session
+                cas.start()
+                producers = []
+                for p in plist:
+                    t = DS.CoThread(target=run_producer, args=(cas, p, workload['producers'][p], False))
+                    t.start()
+                    producers.append(t)
+                for t in producers:
+                    t.join()
+                cas.close()
+                obs[i] = {'log_at_close': len(wrapped.log), 'wrapped_closed': wrapped.closed}
+                if i == len(sessions) - 1 or sessions[i + 1][0] != w:
+                    obs[i]['at_close'] = wrapped.content()   # last session on this storage
 
         sched.spawn('main', main)
         try:
@@ -234,30 +259,37 @@ def run_schedule(ctx, case, chooser=None):
                     raise st_.exc
                 raise Violation('thread %s died with %s: %s' % (st_.name, type(st_.exc).__name__, st_.exc),
                                 'thread-exception')
-        if 'at_close' not in obs:
+        if len(sessions) - 1 not in obs:
             raise Violation('close() never returned', 'termination')
-        if obs['at_close'] != want:
-            missing = sorted(set(want) - set(obs['at_close']))
-            extra = sorted(set(obs['at_close']) - set(want))
-            diff = [k for k in want if k in obs['at_close'] and want[k] != obs['at_close'][k]]
-            raise Violation('wrapped cassette at the moment close() returned differs from the synchronous twin: missing '
-                            'recordings %r, extra %r, different %r (%r vs %r)' % (
-                                missing, extra, diff, [obs['at_close'].get(k) for k in diff[:2]],
-                                [want.get(k) for k in diff[:2]]), 'content-at-close')
-        if len(wrapped.log) != obs['log_at_close']:
-            raise Violation('storage operations %r reached the wrapped cassette after close() had returned' % (
-                wrapped.log[obs['log_at_close']:],), 'after-close')
-        if wrapped.after_close:
-            raise Violation('storage operations %r were applied after the wrapped cassette had been closed' % (
-                wrapped.after_close[:3],), 'after-close')
-        if not obs['wrapped_closed']:
-            raise Violation('wrapped cassette was not closed by close()', 'close')
-        for p, recs in enumerate(workload['producers']):
-            for rid, seq in requested_for(p, recs).items():
-                got = [e for e in wrapped.log if e[1] == rid]
-                if got != seq:
-                    raise Violation('operations reaching wrapped recording %s: %r, requested %r' % (rid, got, seq),
-                                    'order-exactly-once')
+        for i, (w, plist) in enumerate(sessions):
+            wrapped = wrappeds[w]
+            last_on_storage = 'at_close' in obs[i]
+            if last_on_storage and obs[i]['at_close'] != want[w]:
+                got_c, want_c = obs[i]['at_close'], want[w]
+                missing = sorted(set(want_c) - set(got_c))
+                extra = sorted(set(got_c) - set(want_c))
+                diff = [k for k in want_c if k in got_c and want_c[k] != got_c[k]]
+                raise Violation('wrapped cassette at the moment close() returned differs from the synchronous twin: '
+                                'missing recordings %r, extra %r, different %r (%r vs %r)' % (
+                                    missing, extra, diff, [got_c.get(k) for k in diff[:2]],
+                                    [want_c.get(k) for k in diff[:2]]), 'content-at-close')
+            if last_on_storage and len(wrapped.log) != obs[i]['log_at_close']:
+                raise Violation('storage operations %r reached the wrapped cassette after close() had returned' % (
+                    wrapped.log[obs[i]['log_at_close']:],), 'after-close')
+            if not obs[i]['wrapped_closed']:
+                raise Violation('wrapped cassette was not closed by close()', 'close')
+        for wrapped in wrappeds.values():
+            if wrapped.after_close:
+                raise Violation('storage operations %r were applied after the wrapped cassette had been closed' % (
+                    wrapped.after_close[:3],), 'after-close')
+        for w, plist in sessions:
+            for p in plist:
+                for rid, seq in requested_for(p, workload['producers'][p]).items():
+                    for w2, wrapped in wrappeds.items():
+                        got = [e for e in wrapped.log if e[1] == rid]
+                        if got != (seq if w2 == w else []):
+                            raise Violation('operations reaching wrapped recording %s on storage %d: %r, requested %r' % (
+                                rid, w2, got, seq if w2 == w else []), 'order-exactly-once')
     finally:
         A.Lock, A.Event, A.Thread = saved
         DS.install(None)
@@ -273,7 +305,8 @@ def check_case(ctx, case):
     ctx.case({'workload': case['workload'], 'trace': ''.join(n[-1] for n in sched.trace)}, nt, classes=(
         'mode:' + case['sched']['mode'], 'producers:%d' % len(case['workload']['producers']),
         'preemptions:%s' % min(sched.preemptions, 5), 'timer-firings:%s' % min(sched.timer_firings, 5),
-        'failing-op' if fail_set(case['workload']) else 'no-failing-op', 'opcode' if case.get('opcode') else 'line'))
+        'failing-op' if fail_set(case['workload']) else 'no-failing-op', 'opcode' if case.get('opcode') else 'line',
+        'sessions:%d' % len(sessions_of(case['workload']))))
     ctx.count('steps', sched.steps)
 
 
@@ -284,8 +317,9 @@ ops = st.one_of(
                                                                         min_size=1, max_size=2)}))
 recordings = st.fixed_dictionaries({'ops': st.lists(ops, max_size=5),
                                     'fail': st.sampled_from([None, None, None, 0, 1, 2, 'save'])})
-workloads = st.fixed_dictionaries({'producers': st.lists(st.lists(recordings, min_size=1, max_size=2), min_size=1,
-                                                         max_size=3)})
+workloads = st.fixed_dictionaries(
+    {'producers': st.lists(st.lists(recordings, min_size=1, max_size=2), min_size=1, max_size=3)},
+    optional={'second': st.fixed_dictionaries({'from': st.integers(1, 2), 'share': st.booleans()})})
 scheds = st.one_of(
     st.fixed_dictionaries({'mode': st.just('pct'), 'prio': st.permutations(list(range(1, 7))),
                            'changes': st.lists(st.integers(1, 500), max_size=4)}),
